@@ -146,6 +146,22 @@ def compare_code(c, i, ref, x, co_code_hex=None):
         pos += w
     if ok_tiling and pos != n:
         c.fail("tiling", "end", "%s stream ends at %d, len(co_code) = %d" % (tag, pos, n))
+    for fmt in ("classic", "asm"):
+        ret = x.get("instrs_ret_" + fmt)
+        if ret is None:
+            continue
+        if "err" in ret:
+            c.fail("argval", "disassemble_bytes-returned-list|raised", "%s Bytecode.disassemble_bytes(asm_format=%r) raised %s" % (tag, fmt, ret["err"]))
+            continue
+        mine = dict((a["o"], a) for a in xi)
+        for b in ret["instrs"]:
+            a = mine.get(b["o"])
+            if a is None or a["op"] != b["op"]:
+                continue        # (SET_LINENO rows and the like are rearranged by the listing code)
+            if a["a"] != b["a"] or a["v"] != b["v"]:
+                c.fail("argval", "disassemble_bytes-returned-list|%s|%s" % (fmt, a["k"]), "%s at %d %s: iteration gives operand %s -> %s, the list returned by "
+                       "disassemble_bytes(asm_format=%r) has %s -> %s" % (tag, a["o"], a["n"], a["a"], cn.summary(a["v"]), fmt, b["a"], cn.summary(b["v"])))
+                break
     loi = x.get("instrs_loi")
     if loi is not None:
         if "err" in loi:
